@@ -30,8 +30,18 @@ def log(*a):
     print(*a, file=sys.stderr, flush=True)
 
 
+COVERAGE = bool(os.environ.get("VERIF_COVERAGE"))
+COVDIR = os.path.join(TARGET, "coverage")
+if COVERAGE:
+    # reach audit (DESIGN §8): strum_macros is built with -Cinstrument-coverage and every rustc that loads it
+    # dumps a profile; reporting only, never decides
+    os.makedirs(COVDIR, exist_ok=True)
+    ENV["LLVM_PROFILE_FILE"] = os.path.join(COVDIR, "%p-%m.profraw")
+
+
 def repokey():
-    return re.sub(r"[^A-Za-z0-9]+", "_", REPO).strip("_") or "root"
+    k = re.sub(r"[^A-Za-z0-9]+", "_", REPO).strip("_") or "root"
+    return k + ("_cov" if COVERAGE else "")
 
 
 # --------------------------------------------------------------------------------------------
@@ -99,6 +109,8 @@ def build_deps(cfg):
         tdir = os.path.join(base, "t")
         env = dict(ENV)
         env["CARGO_TARGET_DIR"] = tdir
+        if COVERAGE:
+            env["RUSTFLAGS"] = "-Cinstrument-coverage"
         stamp = os.path.join(base, "tree.hash")
         th = tree_hash()
         old = open(stamp).read().strip() if os.path.exists(stamp) else None
@@ -242,18 +254,28 @@ def pmap(fn, items, jobs=None):
         return list(ex.map(fn, items))
 
 
-def run_bin(path, args=(), timeout=1200, env_extra=None):
+class Timeout(Exception):
+    def __init__(self, path, seconds, partial):
+        Exception.__init__(self, "watchdog: %s exceeded %ds" % (path, seconds))
+        self.partial = partial
+
+
+def run_bin(path, args=(), timeout=1200, env_extra=None, raise_timeout=False):
     """Run a shard binary under a watchdog.  Returns (rc, stdout_lines, stderr)."""
     env = dict(ENV)
     env["RUST_BACKTRACE"] = "0"
     if env_extra:
         env.update(env_extra)
+    p = subprocess.Popen([path] + list(args), env=env, stdout=subprocess.PIPE, stderr=subprocess.PIPE)
     try:
-        p = subprocess.run([path] + list(args), env=env, stdout=subprocess.PIPE, stderr=subprocess.PIPE,
-                           timeout=timeout)
+        out, err = p.communicate(timeout=timeout)
     except subprocess.TimeoutExpired:
+        p.kill()
+        out, err = p.communicate()
+        if raise_timeout:
+            raise Timeout(path, timeout, out.decode("utf-8", "replace").splitlines())
         raise Inconclusive("watchdog: %s exceeded %ds" % (path, timeout))
-    return p.returncode, p.stdout.decode("utf-8", "replace").splitlines(), p.stderr.decode("utf-8", "replace")
+    return p.returncode, out.decode("utf-8", "replace").splitlines(), err.decode("utf-8", "replace")
 
 
 # --------------------------------------------------------------------------------------------
